@@ -105,6 +105,21 @@ def strategy(draw):
             inner = draw(gen_tab.template(VERSION, used, max_depth=0, max_children=2))
             extras.append(f"(Delay/{d} {unit}, ({gen_hed.render(inner)}))")
             features.add("delay")
+        if mode in ("onset", "degenerate") and any("Delay/" in e for e in extras) and draw(st.booleans()):
+            # a second group of the same row shifted by another amount
+            d2 = ["0.15", "0.25", "0.35", "0.45", "0.75", "0.95"][r % 6]
+            inner = draw(gen_tab.template(VERSION, used, max_depth=0, max_children=2))
+            extras.append(f"(Delay/{d2} s, ({gen_hed.render(inner)}))")
+            features.add("two-delays-in-row")
+        if roll == 9 and mode != "missingref":
+            # a timing tag whose value is not a number: an ordinary value fault, to be reported like any other
+            bad = draw(st.sampled_from(["Delay/abc s", "Delay/ s", "Delay/1 s ms", "Duration/x", "Delay/1e s",
+                                        "Duration/3 parsecs", "Delay/--2 s"]))
+            inner = draw(gen_tab.template(VERSION, used, max_depth=0, max_children=2))
+            row[hidx] = f"({bad}, ({gen_hed.render(inner)}))"
+            features.add("fault:timing-value")
+            faulty_rows.append(r)
+            extras = []
         if roll == 7:
             ann = draw(gen_hed.annotation(VERSION, allow_placeholder=False, max_depth=1, with_defs=False,
                                           specials=False, used=used, max_children=2))
